@@ -494,9 +494,16 @@ EditClauses(c, S) ==
   IF ~c.hasedit THEN <<>>
   ELSE LET pre == StateOfJ(c.edit.pre)
            eff == OpEff(pre, c.edit.op, c.edit.args)
-       IN Tag(<< Cl("C05.InputOrderAfterEdit", WellFormed(pre) /\ OpOK(pre, c.edit.op, c.edit.args) /\ Muxes(pre) # {},
+           ok  == WellFormed(pre) /\ OpOK(pre, c.edit.op, c.edit.args)
+           \* the edit did what its documented effect says (components, links in order, rails, phase configurations, phases)
+           asDoc == /\ Names(S) = DOMAIN eff.comps
+                    /\ S.par = eff.par /\ S.pconf = eff.pconf
+                    /\ \A n \in Names(S) : S.comps[n].rail = eff.comps[n].rail /\ S.comps[n].cls = eff.comps[n].cls
+                    /\ [i \in DOMAIN S.sysph |-> S.sysph[i].name] = [i \in DOMAIN eff.sysph |-> eff.sysph[i].name]
+       IN Tag(<< Cl("C05.InputOrderAfterEdit", ok /\ Muxes(pre) # {},
                     /\ Names(S) = DOMAIN eff.comps
                     /\ \A m \in Muxes(S) : S.par[m] = eff.par[m]) >>, "", "")
+          \o (IF ok /\ ~asDoc THEN BuildClauses ELSE <<>>)
 
 \* solve() of a system inside the modelled class may only raise the documented RuntimeError / ValueError; any other
 \* exception (OverflowError from a stale registry, KeyError, IndexError ...) means the system has no report either
